@@ -795,7 +795,7 @@ func collectionOf(vm *VM, agg func([]Term, *Env) Term, template, goal, instances
 }
 
 func variant(t1, t2 Term, env *Env) bool {
-	s := map[Variable]Variable{}
+	s, r := map[Variable]Variable{}, map[Variable]Variable{}
 	rest := [][2]Term{
 		{t1, t2},
 	}
@@ -807,13 +807,12 @@ func variant(t1, t2 Term, env *Env) bool {
 		case Variable:
 			switch y := y.(type) {
 			case Variable:
-				if z, ok := s[x]; ok {
-					if z != y {
-						return false
-					}
-				} else {
-					s[x] = y
+				z, ok := s[x]
+				w, ko := r[y]
+				if ok != ko || (ok && (z != y || w != x)) {
+					return false
 				}
+				s[x], r[y] = y, x
 			default:
 				return false
 			}
